@@ -97,9 +97,11 @@ def slotted(  # noqa: C901
         inherited_slots = set().union(*(getattr(c, "__slots__", ()) for c in cls.mro()))
 
         field_names = {f.name: ... for f in dataclasses.fields(cls) if f.name}
-        if dict:
+        # A base without __slots__ already provides __dict__/__weakref__;
+        #   declaring the slot again is rejected by the interpreter.
+        if dict and not any(b.__dictoffset__ for b in cls.__bases__):
             field_names["__dict__"] = ...
-        if weakref:
+        if weakref and not any(b.__weakrefoffset__ for b in cls.__bases__):
             field_names["__weakref__"] = ...
         cls_dict["__slots__"] = (*(f for f in field_names if f not in inherited_slots),)
 
